@@ -1176,6 +1176,81 @@ def gen_shared_dep_case(rng, cid):
     return dict(id=cid, root="r", mods=mods, shape="shared_dep")
 
 
+# ------------------------------------------------------------------------------------------------
+# import statements at places the module-summary model does not describe (judged by the oracle only)
+# ------------------------------------------------------------------------------------------------
+RES_A = """Binde "Duden/Ausgabe" ein.
+Die Funktion melde_a gibt eine Zahl zurück, macht:
+	Schreibe "init a" auf eine Zeile.
+	Gib 7 zurück.
+Und kann so benutzt werden:
+	"melde_a"
+Die öffentliche Zahl wa ist melde_a.
+"""
+RES_FWD_HEAD = """Binde "Duden/Ausgabe" ein.
+Die Funktion zeige gibt nichts zurück, wird später definiert
+Und kann so benutzt werden:
+	"zeige"
+Schreibe "R0" auf eine Zeile.
+"""
+RES_FWD_DEF = """Die Funktion zeige macht:
+	Binde wa aus "a" ein.
+	Schreibe wa auf eine Zeile.
+Schreibe "R1" auf eine Zeile.
+zeige.
+"""
+RES_GEN = """Binde "Duden/Ausgabe" ein.
+Die generische Funktion zeige mit dem Parameter x vom Typ T, gibt nichts zurück, macht:
+%s	Schreibe "G" auf eine Zeile.
+Und kann so benutzt werden:
+	"zeige <x>"
+Schreibe "R0" auf eine Zeile.
+zeige 1.
+zeige "t".
+"""
+
+
+def residual_cases(b, base, sink):
+    """(1) a forward-declared function whose definition contains an import, called before / only after the definition;
+    (2) an import inside the body of a generic function (+ control without the import).  Returns a stats dict."""
+    d = os.path.join(base, "residual")
+    os.makedirs(d, exist_ok=True)
+    progs = {
+        "fwd_call_before_def": RES_FWD_HEAD + "zeige.\n" + RES_FWD_DEF,
+        "fwd_call_after_def": RES_FWD_HEAD + RES_FWD_DEF,
+        "gen_import": RES_GEN % '\tBinde wa aus "a" ein.\n\tSchreibe wa auf eine Zeile.\n',
+        "gen_control": RES_GEN % "",
+    }
+    open(os.path.join(d, "a.ddp"), "w").write(RES_A)
+    for n, t in progs.items():
+        open(os.path.join(d, n + ".ddp"), "w").write(t)
+
+    def work(n):
+        r = b.compile(n + ".ddp", os.path.join(d, n), cwd=d)
+        if r["stage"] != "ok":
+            return n, r["stage"], r["out"], None
+        rc, so, se = b.run(os.path.join(d, n), cwd=d)
+        return n, "ran", "", so.decode("utf-8", "replace").splitlines()
+    out = {}
+    for n, stage, msg, lines in vlib.pmap(work, sorted(progs)):
+        out[n] = stage
+        rep = dict(files={"a.ddp": RES_A, n + ".ddp": progs[n]}, how="kddp kompiliere %s.ddp, link, run" % n, output=lines, compiler_output=msg[-600:])
+        kind = "forward-declared-import" if n.startswith("fwd") else "generic-function-import"
+        ctl = "-control" if n in ("fwd_call_after_def", "gen_control") else ""
+        if stage != "ran":
+            internal = "Unerwarteter Fehler" in msg or "StackTrace" in msg or "ParserError" in msg or "CompilerError" in msg
+            sink.violation("residual %s%s %s" % (kind, ctl, "internal-error" if internal else "rejected"),
+                           "%s: no executable (%s): %s" % (n, stage, msg.strip().splitlines()[0][:300] if msg.strip() else ""), rep)
+            continue
+        uses_a = n != "gen_control"
+        ninit = lines.count("init a")
+        if uses_a and ninit != 1:
+            sink.violation("residual %s%s init-count=%d" % (kind, ctl, ninit), "%s: the initialiser of a ran %d times: %s" % (n, ninit, lines), rep)
+        if "0" in lines:
+            sink.violation("residual %s%s uninitialised-global-read" % (kind, ctl), "%s: the global of a is read before its initialiser ran: %s" % (n, lines), rep)
+    return out
+
+
 def stmt_to_json(s):
     if s[0] == "I":
         return ["I", s[1], list(s[2]) if s[2][0] != "N" else ["N", list(s[2][1])]]
@@ -1318,6 +1393,7 @@ def main():
     b = Build()
     ck.cov["trusted_base"] = vlib.TRUSTED_COMMON + [
         "module summaries: a module is abstracted to its imports, declarations (kind, name, visibility), uses, marker statements, Wiederhole/Wenn blocks and function bodies; paths are numbers; the directory walk order of filepath.WalkDir is re-implemented in the check (lexical order) and given to the model as data",
+        "outside the model's statement language and judged by the oracle only (leg 'residual'): an import statement inside a generic function body and inside the definition (FuncDef) of a forward-declared function",
         "the model computes a module's public interface from its own declarations only (cases where a non-root module declares a name it also imports are judged against the property but not compared with the model); calls out of function bodies are not expanded by the model (the generator never nests calls); imports of Duden modules are outside the model",
         "numeric diagnostic codes are re-read from src/ddperror/codes.go on every run; only the class (include / undefined / already defined / alias / other, 'refused' for a use) per statement is compared, never the wording",
         "sha256 (module hash in mangled names) is a section variable of Mod/Mangle.v, assumed injective on the module names of one compilation",
@@ -1388,6 +1464,7 @@ def main():
         ck.broken_obligation(str(e), "")
         ck.finish()
     log("[c10] evaluated at %.1fs (%d compiled)" % (__import__("time").time() - ck.t0, stats["compiled"]))
+    stats["residual"] = residual_cases(b, base, col)
 
     # ---- violations: known findings are filtered by vlib; new ones are shrunk and persisted ------
     by_id = {c["id"]: c for c in cases}
@@ -1396,6 +1473,8 @@ def main():
         if ck.violation(key, what, replay):
             head = key_head(key)
             cid = replay.get("case_id") if isinstance(replay, dict) else None
+            if key.startswith("residual "):
+                continue
             if head in fresh_heads or cid not in by_id or len(fresh_heads) >= 3:
                 continue
             fresh_heads.add(head)
